@@ -178,3 +178,46 @@ def independent(a, b):
                     pass
             first.comments[:] = saved_comments
     return ""
+
+
+# ------------------------------------------------------------------ histories: warm, edit in place, re-query
+
+EDIT_HOWS = ("handle", "column", "copy-then-handle")
+
+
+def reparent_edits(p):
+    """All single re-parentings (i, j) that keep a well-formed tree well-formed: i is not the root, j is a
+    different parent than the current one and not inside i's own subtree."""
+    n = len(p)
+    out = []
+    for i in range(1, n):
+        below = set(ref.descendants_or_self(list(p), i))
+        for j in range(n):
+            if j != p[i] and j not in below:
+                out.append((i, j))
+    return out
+
+
+def apply_reparent(t, p, edit, warm=None):
+    """History: build-time tree t (parent list p) has been queried by `warm`; now re-parent node i to j IN PLACE
+    through the public API and return (the object to interrogate, its new parent list, the other object + its list).
+
+    how = 'handle': t.node(i).pid = j;  'column': write into the array t.pid() returns;
+          'copy-then-handle': c = t.copy(); c.node(i).pid = j  (c must answer for the new table, t for the old).
+    """
+    i, j, how = edit
+    if warm is not None:
+        warm(t)
+    q = list(p)
+    q[i] = j
+    if how == "handle":
+        t.node(i).pid = j
+        return t, q, None, None
+    if how == "column":
+        t.pid()[i] = j
+        return t, q, None, None
+    if how == "copy-then-handle":
+        c = t.copy()
+        c.node(i).pid = j
+        return c, q, t, list(p)
+    raise ValueError(how)
